@@ -76,7 +76,10 @@ def parse_wrapper(kind, line, col):
             raise exc
     parser = cp.CELParser()
     saved = cp.CELParser.CEL_PARSER
-    cp.CELParser.CEL_PARSER = Stub()
+    stub = Stub()
+    cp.CELParser.CEL_PARSER = stub
+    if hasattr(parser, "parser"):
+        parser.parser = stub
     try:
         try:
             parser.parse(text)
